@@ -6,11 +6,13 @@ a = sys.argv[1:]
 eid, prop, pid, tier, opre, sre = a[:6]
 when = what = None
 anyfp = False
+replace = False
 i = 6
 while i < len(a):
     if a[i] == '--when': when = a[i+1]; i += 2
     elif a[i] == '--what': what = a[i+1]; i += 2
     elif a[i] == '--any': anyfp = True; i += 1
+    elif a[i] == '--replace': replace = True; i += 1
     else: raise SystemExit('bad arg ' + a[i])
 p = '/verif/known_findings.json'
 kf = json.load(open(p))
@@ -24,8 +26,9 @@ if ent is None:
 if when is not None: ent['when'] = when
 if what is not None: ent['what'] = what
 ent['property'] = prop
-# drop old cases of this tier matching the regexes
-ent['cases'] = [c for c in ent['cases'] if not (c.get('tier') == tier and re.fullmatch(opre, c['op']) and re.fullmatch(sre, c['subject']))]
+# with --replace: drop old cases of this tier matching the regexes (after a change of the tier's domains)
+if replace:
+    ent['cases'] = [c for c in ent['cases'] if not (c.get('tier') == tier and re.fullmatch(opre, c['op']) and re.fullmatch(sre, c['subject']))]
 n = 0
 cfgs = set()
 for f in sorted(glob.glob('/verif/replays/%s_%s_*.json' % (pid, tier))):
